@@ -302,6 +302,12 @@ RACES = [
     ("user-pass-drop", 1, 1, [(0, "@connect"), (0, "USER bob!"), (0, "PASS pw!"), (0, "@drop")], 1),
     ("user-quit", 1, 1, [(0, "@connect"), (0, "USER alice!"), (0, "QUIT")], 1),
     ("two-connect-one-slot", 2, 1, [(0, "@connect!"), (1, "@connect!"), (0, "@drop")], 0),
+    # the last slot is being given back while the next client arrives (its connection lands at every point of the
+    # first session's tear-down)
+    ("drop-then-connect-one-slot", 2, 1, [(0, "@connect"), (0, "@drop!"), (1, "@connect")], 1),
+    ("rst-then-connect-one-slot", 2, 1, [(0, "@connect"), (0, "@rst!"), (1, "@connect")], 1),
+    ("quit-then-connect-one-slot", 2, 1, [(0, "@connect"), (0, "QUIT!"), (1, "@connect")], 1),
+    ("login-drop-then-connect-login", 2, 1, [(0, "@connect"), (0, "USER alice"), (0, "@drop!"), (1, "@connect!"), (1, "USER alice")], 2),
     ("relogin-race", 2, 2, [(0, "@connect"), (1, "@connect"), (0, "USER alice"), (0, "USER bob!"), (1, "USER alice")], 3),
     ("boom-while-user", 1, 1, [(0, "@connect"), (0, "USER bob!"), (0, "BOOM")], 1),
     # the same races with a user manager that suspends inside get_user / authenticate / notify_logout: the
